@@ -347,15 +347,9 @@ class C19(Check):
                 moved = [bitsv3(p) for p in sh["positions"]]
                 if case["shift"]["exact"]:
                     want = []
-                    idx = {}
-                    for i, p in enumerate(positions):
-                        idx.setdefault(p, []).append(i)
-                    used = Counter()
                     for p in impl["picture"]:
                         q = bitsv3(p)
-                        cands = [i for i in idx[q] if i != case["selfIndex"]]
-                        want.append(v3bits(moved[cands[min(used[q], len(cands) - 1)]]))
-                        used[q] += 1
+                        want.append(v3bits((q[0] + t[0], q[1] + t[1], q[2] + t[2])))
                     if want != sh["picture"]:
                         fails.append(("C19:translation", f"picture of the scene translated by {t} is not the translated "
                                       f"picture: {len(sh['picture'])} vs {len(want)} entries"))
